@@ -14,6 +14,7 @@ class TlcResult:
         self.trace_text = ""
         self.wall = 0.0
         self.timed_out = False
+        self.post_failed = False
 
     @property
     def ok(self):
@@ -90,6 +91,8 @@ def run(module, cfg=None, env=None, workers=4, timeout=900, simulate=None, depth
         r.trace_text = r.out[i:]
         st = _parse_states(r.trace_text)
         if st: r.last_state = st[-1]; r.states = st
+    elif re.search(r"Error: Postcondition \w+ .* is false", r.out):
+        r.post_failed = True
     elif r.rc != 0 and not r.timed_out:
         i = r.out.find("Error:")
         r.error = r.out[i:i + 3000] if i >= 0 else r.out[-3000:]
